@@ -562,7 +562,7 @@ def to_ptr(I, p):
 
 def call(I, fr, name, fname, k, args, depth):
     short = name.rsplit("::", 1)[-1]
-    if "fmt::" in name or "ToString" in name or "io::Write" in name:
+    if "fmt::" in name or "ToString" in name or "io::Write" in name or name.endswith("io::_eprint") or name.endswith("io::_print"):
         from . import fmtmodel
 
         try:
@@ -1220,7 +1220,9 @@ def call(I, fr, name, fname, k, args, depth):
             if meth == "contains_key":
                 return int(kf(args[1]) in m.d)
             if meth == "entry":
-                return Adt("model::MapEntry", 0, "Entry", [m, args[1]])
+                # the crate matches on Entry::Occupied / Entry::Vacant: the variant must be the real one
+                present = kf(args[1]) in m.d
+                return Adt("model::MapEntry", 0 if present else 1, "Occupied" if present else "Vacant", [Adt("model::MapSlot", 0, "Slot", [m, args[1]])])
             if meth in ("first_key_value", "last_key_value"):
                 its = m.items()
                 if not its:
@@ -1322,7 +1324,7 @@ def call(I, fr, name, fname, k, args, depth):
 
         meth = name.rsplit("::", 1)[-1]
         e_ = args[0]
-        m, key_ = e_.fields
+        m, key_ = e_.fields[0].fields
         kfz = _fz(deref(I, key_))
         if meth in ("or_insert", "or_insert_with", "or_default"):
             if kfz not in m.d:
@@ -1331,9 +1333,18 @@ def call(I, fr, name, fname, k, args, depth):
                 elif meth == "or_insert_with":
                     v_ = call_closure(I, args[1], [], depth)
                 else:
-                    g = (k.get("g") or ["", ""])
-                    vt = g[1] if len(g) > 1 else ""
-                    v_ = [] if "Vec<" in vt else (StrBuf([]) if vt.endswith("String") else 0)
+                    g = [x for x in (k.get("g") or []) if not x.startswith("'")]
+                    if len(g) < 2:
+                        raise Unsupported("Entry::or_default without the value type: %r" % (k.get("g"),))
+                    vt = g[-1]  # Entry<'a, K, V>: the value type is the last parameter
+                    if vt.startswith("std::vec::Vec<") or vt.startswith("alloc::vec::Vec<"):
+                        v_ = []
+                    elif vt.endswith("string::String"):
+                        v_ = StrBuf([])
+                    elif vt in ("usize", "u64", "u32", "i64", "i32", "u8", "bool"):
+                        v_ = 0
+                    else:
+                        raise Unsupported("Entry::or_default of %s" % vt)
                 m.d[kfz] = [key_, v_]
             return Ref(_HeapFrame(m.d[kfz]), 0, [("i", 1)])
         if meth == "and_modify":
@@ -1708,8 +1719,20 @@ def call(I, fr, name, fname, k, args, depth):
         return []
     if name.endswith("vec::Vec::<T, A>::insert"):
         v = deref(I, args[0])
+        if args[1] > len(v):
+            raise Panic("Vec::insert index out of bounds")
         v.insert(args[1], args[2])
         return []
+    if name.endswith("vec::Vec::<T, A>::remove") or name.endswith("vec::Vec::<T, A>::swap_remove"):
+        v = deref(I, args[0])
+        if not isinstance(v, list):
+            raise Unsupported("Vec::remove on %r" % (v,))
+        if args[1] >= len(v):
+            raise Panic("Vec::remove index out of bounds")
+        if name.endswith("swap_remove"):
+            v[args[1]], v[-1] = v[-1], v[args[1]]
+            return v.pop()
+        return v.pop(args[1])
     if name.endswith("vec::Vec::<T, A>::capacity"):
         return len(deref(I, args[0]))
     if name.endswith("slice::<impl [T]>::last_mut") or name.endswith("slice::<impl [T]>::first_mut"):
@@ -1749,6 +1772,8 @@ def call(I, fr, name, fname, k, args, depth):
             return ValIter(list(range(it.hi, it.lo - 1, -1)) if not it.done else [])
         if isinstance(it, SliceIter):
             return RevSliceIter(it.s)
+        if isinstance(it, ValIter):
+            return ValIter(list(reversed(it.v[it.i:])))
         raise Unsupported("rev on %r" % (it,))
     if name.endswith("Iterator::sum") or name.endswith("Iterator>::sum"):
         tot = 0
@@ -2109,7 +2134,29 @@ def call(I, fr, name, fname, k, args, depth):
                     return some(i_ - it_.i)
             return NONE()
         raise Unsupported("rposition on %r" % (it_,))
-    if "map::OccupiedEntry::<" in name or "map::VacantEntry::<" in name:
+    if "map::OccupiedEntry::<" in name or "map::VacantEntry::<" in name or "entry::OccupiedEntry::<" in name or "entry::VacantEntry::<" in name:
+        from .minimir import freeze as _fz
+
+        meth = name.rsplit("::", 1)[-1]
+        slot_ = deref(I, args[0]) if not (isinstance(args[0], Adt) and args[0].path == "model::MapSlot") else args[0]
+        if not (isinstance(slot_, Adt) and slot_.path == "model::MapSlot"):
+            raise Unsupported("map entry variant API %s on %r" % (name, slot_))
+        m, key_ = slot_.fields
+        kfz = _fz(deref(I, key_))
+        occupied = "OccupiedEntry" in name
+        if meth == "insert":
+            if occupied:
+                if kfz not in m.d:
+                    raise Panic("OccupiedEntry without an entry")
+                old_ = m.d[kfz][1]
+                m.d[kfz][1] = args[1]
+                return old_
+            m.d[kfz] = [key_, args[1]]
+            return Ref(_HeapFrame(m.d[kfz]), 0, [("i", 1)])
+        if occupied and meth in ("get", "get_mut", "into_mut"):
+            return Ref(_HeapFrame(m.d[kfz]), 0, [("i", 1)])
+        if meth == "key":
+            return tmp_ref(key_) if not isinstance(key_, Ref) else key_
         raise Unsupported("map entry variant API %s" % name)
     if name.endswith("string::String::truncate"):
         sb_ = deref(I, args[0])
